@@ -11,7 +11,7 @@ from seed_import import validate  # noqa: E402
 def main():
     filt = sys.argv[1:]
     jobs = [(sid.split("-")[0], sid, os.path.join(V, "seeded", sid)) for sid in sorted(os.listdir(os.path.join(V, "seeded")))
-            if not filt or any(f in sid for f in filt)]
+            if (not filt or any(f in sid for f in filt)) and not __import__("json").load(open(os.path.join(V, "seeded", sid, "meta.json"))).get("obsolete")]
     with mp.get_context("fork").Pool(8) as pool:
         reps = pool.map(validate, jobs, chunksize=1)
     bad = 0
